@@ -6,6 +6,7 @@ import (
 	"errors"
 	"fmt"
 	"reflect"
+	"sort"
 	"strconv"
 	"strings"
 	"time"
@@ -400,4 +401,124 @@ func (h *c20Ante) expect(roots []*c20Node) c20Expect {
 		walk(r, 0)
 	}
 	return e
+}
+
+// ---- real message structure: walking packed messages with the SDK's own accessors -------------
+
+// innerOf returns the messages a real message executes (nil for anything that is not one of the
+// SDK's message-carrying wrappers); independent of the hub's reject decorator.
+func c20InnerOf(m sdk.Msg) ([]sdk.Msg, bool) {
+	// the packed messages that did unpack (an unreadable Any is skipped: the harness appends it last)
+	cached := func(anys []*codectypes.Any) []sdk.Msg {
+		var out []sdk.Msg
+		for _, a := range anys {
+			if mm, ok := a.GetCachedValue().(sdk.Msg); ok {
+				out = append(out, mm)
+			}
+		}
+		return out
+	}
+	switch w := m.(type) {
+	case *authz.MsgExec:
+		return cached(w.Msgs), true
+	case *govv1.MsgSubmitProposal:
+		return cached(w.Messages), true
+	case *group.MsgSubmitProposal:
+		return cached(w.Messages), true
+	}
+	return nil, false
+}
+
+// reachReal follows an index path through the REAL messages of the transaction
+func (h *c20Ante) reachReal(tx sdk.Tx, path []int) string {
+	msgs := tx.GetMsgs()
+	var cur sdk.Msg
+	for i, ix := range path {
+		if i > 0 {
+			in, ok := c20InnerOf(cur)
+			if !ok {
+				return "none"
+			}
+			msgs = in
+		}
+		if ix < 0 || ix >= len(msgs) {
+			return "none"
+		}
+		cur = msgs[ix]
+	}
+	if cur == nil {
+		return "none"
+	}
+	a, ok := h.aliasOf[sdk.MsgTypeURL(cur)]
+	if !ok {
+		a = "?"
+	} else if k := h.kinds[a]; !k.wrapper && !k.grant && k.disabled < 0 {
+		a = "other" // a type the ante tables do not mention
+	}
+	return fmt.Sprintf("at %s depth %d", a, len(path)-1)
+}
+
+// probeWrappers asks the application's interface registry which registered message types can carry
+// packed sdk.Msgs: a message type qualifies when one of its Any-typed fields (directly or one
+// struct level down), filled with a raw packed MsgSend, is unpacked by the type's own
+// UnpackInterfaces into an sdk.Msg.
+func (h *c20Ante) probeWrappers() (goNames []string, urls []string) {
+	reg := h.f.App.InterfaceRegistry()
+	anyT := reflect.TypeOf(&codectypes.Any{})
+	anysT := reflect.TypeOf([]*codectypes.Any{})
+	for _, url := range reg.ListImplementations(sdk.MsgInterfaceProtoName) {
+		proto, err := reg.Resolve(url)
+		if err != nil {
+			continue
+		}
+		if _, ok := proto.(codectypes.UnpackInterfacesMessage); !ok {
+			continue
+		}
+		t := reflect.TypeOf(proto).Elem()
+		type slot struct{ idx []int }
+		var slots []slot
+		var scan func(t reflect.Type, prefix []int, depth int)
+		scan = func(t reflect.Type, prefix []int, depth int) {
+			for i := 0; i < t.NumField(); i++ {
+				ft := t.Field(i).Type
+				ix := append(append([]int{}, prefix...), i)
+				switch {
+				case ft == anyT || ft == anysT:
+					slots = append(slots, slot{ix})
+				case ft.Kind() == reflect.Struct && depth < 1:
+					scan(ft, ix, depth+1)
+				}
+			}
+		}
+		scan(t, nil, 0)
+		isWrapper := false
+		for _, sl := range slots {
+			fresh, err := reg.Resolve(url)
+			if err != nil {
+				continue
+			}
+			raw := h.rawAny()
+			fv := reflect.ValueOf(fresh).Elem().FieldByIndex(sl.idx)
+			if fv.Type() == anyT {
+				fv.Set(reflect.ValueOf(raw))
+			} else {
+				fv.Set(reflect.ValueOf([]*codectypes.Any{raw}))
+			}
+			func() {
+				defer func() { _ = recover() }()
+				if err := codectypes.UnpackInterfaces(fresh, reg); err != nil {
+					return
+				}
+				if _, ok := raw.GetCachedValue().(sdk.Msg); ok {
+					isWrapper = true
+				}
+			}()
+		}
+		if isWrapper {
+			goNames = append(goNames, goTypeName(proto))
+			urls = append(urls, url)
+		}
+	}
+	sort.Strings(goNames)
+	return goNames, urls
 }
